@@ -359,6 +359,9 @@ def from_consts(ty, n):
     if isinstance(ty, TOpt):
         return VOpt(ty.inner, z3.Bool(n + "?none"), from_consts(ty.inner, n + "?val"))
     if isinstance(ty, TList):
+        if isinstance(ty.elem, TTuple):
+            # struct of sequences: one sequence per tuple component, all of the same length
+            return VList(ty.elem, [z3.Const(f"{n}#c{i}", z3.SeqSort(srt)) for i, srt in enumerate(flat_sorts(ty.elem))])
         return VList(ty.elem, z3.Const(n, z3.SeqSort(elem_sort(ty.elem))))
     if isinstance(ty, TDict):
         if isinstance(ty.val, TTuple):
@@ -385,6 +388,8 @@ def from_consts(ty, n):
 
 def flat(v):
     """list of z3 terms that make up the value (used for heap storage, equality, ite)."""
+    if isinstance(v, VList) and isinstance(v.e, list):
+        return list(v.e)
     if isinstance(v, (VInt, VBool, VStr, VBytes, VRef, VList, VClass, VOpaque)):
         return [v.e]
     if isinstance(v, VNone):
@@ -424,6 +429,8 @@ def unflat(ty, es):
             n = es.pop(0)
             return VOpt(t.inner, n, go(t.inner))
         if isinstance(t, TList):
+            if isinstance(t.elem, TTuple):
+                return VList(t.elem, [es.pop(0) for _ in flat_sorts(t.elem)])
             return VList(t.elem, es.pop(0))
         if isinstance(t, TDict):
             k = es.pop(0)
@@ -535,6 +542,8 @@ def default_value(ty):
     if isinstance(ty, TClass):
         return VClass(z3.IntVal(0))
     if isinstance(ty, TList):
+        if isinstance(ty.elem, TTuple):
+            return VList(ty.elem, [z3.Empty(z3.SeqSort(srt)) for srt in flat_sorts(ty.elem)])
         return VList(ty.elem, z3.Empty(z3.SeqSort(elem_sort(ty.elem))))
     if isinstance(ty, TDict):
         return empty_dict(ty)
@@ -627,6 +636,8 @@ def truthy(v):
         return z3.BoolVal(False)
     if isinstance(v, VDict) and v.keys is None:
         return z3.BoolVal(False)
+    if isinstance(v, VList) and isinstance(v.e, list):
+        return z3.Length(v.e[0]) > 0
     if isinstance(v, (VStr, VBytes, VList)):
         return z3.Length(v.e) > 0
     if isinstance(v, VNone):
@@ -642,3 +653,13 @@ def truthy(v):
     if isinstance(v, (VClass, VFunc, VOpaque)):
         return z3.BoolVal(True)
     raise Unsupported(f"truth value of {type(v).__name__}")
+
+
+def seq_len(v):
+    return z3.Length(v.e[0] if isinstance(v.e, list) else v.e)
+
+
+def seq_get(v, i):
+    if isinstance(v.e, list):
+        return unflat(v.elem_ty, [x[i] for x in v.e])
+    return elem_value(v.elem_ty, v.e[i])
